@@ -356,3 +356,11 @@ Proof.
   rewrite E0. destruct (is_ty ($"css_string") t); [rewrite Hw; cbn; eauto|].
   cbn [orb] in Ht. rewrite Ht, Hw. cbn. eauto.
 Qed.
+
+Corollary unbalanced_rejected ts : bal 0 (map (fun t => (tk_type t, tk_val t)) ts) = false -> forall ns, parse_tokens ts <> POk ns.
+Proof. intros H ns Hp. apply accepted_is_balanced in Hp. congruence. Qed.
+
+(* a string token is handed to the declaration unchanged: `name : "..." ;` parses to the declaration whose value is that one token *)
+Lemma string_value_parsed f s rest : 
+  parse_value (S (S f)) [$"t_semicolon"] (($"css_string", s) :: ($"t_semicolon", [";"]) :: rest) = POk ([VT s], false, $"t_semicolon", rest).
+Proof. reflexivity. Qed.
